@@ -19,6 +19,7 @@
 #include <pthread.h>
 #include <semaphore.h>
 #include <link.h>
+#include <dlfcn.h>
 #include <eav.h>
 #include <eav/auto_tld.h>
 
@@ -138,6 +139,34 @@ static void execute(const unsigned char *prefix, long nprefix, int want_keys) {
     if (CURH->done) CURH->done();
 }
 
+/* ------------------------------------------------------------------ write sets of the library's static memory
+ * The library takes no lock and uses no atomic (lib/c14imports.py checks its imports), so a byte of its static memory that
+ * two threads both write during their calls is a data race whatever the schedule - also when the stores happen inside libc
+ * (strtok_r, qsort, ...), where neither the compiler-inserted access hooks nor ThreadSanitizer can see them, and also when
+ * every outcome stays the same.  Each thread body is run alone from the restored snapshot; the bytes that differ from the
+ * snapshot afterwards are its write set (a store of the value already there is invisible - stated in DESIGN.md). */
+static int solo_write_sets(char *where, size_t cap) {
+    unsigned char *W[MAXT][16]; int hit = 0; where[0] = 0;
+    int nt = CURH->nthreads;
+    for (int t = 0; t < nt; t++) {
+        for (int t2 = 0; t2 < MAXT; t2++) LOG[t2][0] = 0;
+        snapshot_restore(); CURH->prep();
+        unsigned char *before[16]; for (int r = 0; r < NLIBREG; r++) { before[r] = malloc(REG[r].n); memcpy(before[r], REG[r].p, REG[r].n); }
+        CURH->body(t);                      /* tl_tid is -1: no scheduling point fires */
+        for (int r = 0; r < NLIBREG; r++) { W[t][r] = calloc(REG[r].n, 1); for (size_t i = 0; i < REG[r].n; i++) if (REG[r].p[i] != before[r][i]) W[t][r][i] = 1; free(before[r]); }
+        if (CURH->done) CURH->done();
+    }
+    for (int a = 0; a < nt && !hit; a++) for (int b = a + 1; b < nt && !hit; b++) for (int r = 0; r < NLIBREG && !hit; r++) for (size_t i = 0; i < REG[r].n; i++) if (W[a][r][i] && W[b][r][i]) {
+        size_t n = 0; while (i + n < REG[r].n && W[a][r][i + n] && W[b][r][i + n]) n++;
+        Dl_info di; const char *sym = (dladdr(REG[r].p + i, &di) && di.dli_sname) ? di.dli_sname : "(static object)";
+        snprintf(where, cap, "threads %d and %d both store to %zu byte(s) of the library's static memory at writable-segment offset %zu (%s)", a, b, n, i, sym);
+        hit = 1; break;
+    }
+    for (int t = 0; t < nt; t++) for (int r = 0; r < NLIBREG; r++) free(W[t][r]);
+    snapshot_restore();
+    return hit;
+}
+
 /* ------------------------------------------------------------------ explorer */
 static int C_SHAREDW, C_EXEC, C_STATES, C_TRANS, C_MAXSW, C_POINTS, C_OUTCOMES;
 typedef struct { unsigned char *c; long n; } sched_t;
@@ -177,6 +206,9 @@ static void check_outcome(const char *hname) {
 static void explore_harness(long hi, void *arg) {
     (void)arg; CURH = &H[hi]; harness_t *h = CURH;
     int saved_nreg = NREG;
+    { char where[256]; if (solo_write_sets(where, sizeof where)) { char cfg[96]; snprintf(cfg, sizeof cfg, "harness=%s", h->name);
+        mc_violation("static-writes", "data-race:library-static-memory-written-by-two-threads", "", cfg, (const unsigned char *)"", 0, "%s; the library has no synchronisation, so this is a write-write race under every schedule", where);
+        NREG = saved_nreg; return; } }
     /* sequential reference: no prefix => thread 0 runs to completion, then 1, then 2 */
     execute(NULL, 0, 1);
     for (int t = 0; t < MAXT; t++) strcpy(REFLOG[t], LOG[t]);
@@ -267,6 +299,7 @@ static int do_replay(void) {
     const char *hn = strstr(r.cfg, "harness="); if (!hn) return 2; hn += 8;
     for (int i = 0; i < NH; i++) if (!strncmp(hn, H[i].name, strlen(H[i].name))) {
         CURH = &H[i];
+        if (!strcmp(r.sub, "static-writes")) { char where[256]; int hit = solo_write_sets(where, sizeof where); printf("%s\nreplay %s: %s\n", where, mc_replay, hit ? "VIOLATION reproduced" : "no violation"); return hit; }
         execute(NULL, 0, 1); for (int t = 0; t < MAXT; t++) strcpy(REFLOG[t], LOG[t]);
         execute(r.in, r.len, 1); char l1[MAXT][LOGSZ]; memcpy(l1, LOG, sizeof l1);
         execute(r.in, r.len, 1);
